@@ -27,6 +27,12 @@ theorem C01_F_enumBitMap_enum_witness :
     c01Region (c01Pkg true ['F'] [tspec ['F', 'A'] ['F'] 1]) = "F_enumBitMap" ∧
     c01Model (c01Pkg true ['F'] [tspec ['F', 'A'] ['F'] 1]) = (0, true, false) := by decide
 
+/-- `type C int; const CA C = 1; func f() { const tmp C = 7 }`: exit 0, `tmp` is undefined at package level -/
+theorem C01_F_enumForeignConst_witness :
+    c01Region { c01Pkg false ['C'] [tspec ['C', 'A'] ['C'] 1] with locals := [[tspec ['t', 'm', 'p'] ['C'] 7]] } = "F_enumForeignConst" ∧
+    c01Model { c01Pkg false ['C'] [tspec ['C', 'A'] ['C'] 1] with locals := [[tspec ['t', 'm', 'p'] ['C'] 7]] } = (0, true, false) := by
+  decide
+
 /-- negative constants are ordinary since /repo 9f224b6 -/
 example : c01Region (c01Pkg false ['C'] [tspec ['C', 'A'] ['C'] (-1), tspec ['C', 'B'] ['C'] 3]) = "WF" ∧
     c01Model (c01Pkg false ['C'] [tspec ['C', 'A'] ['C'] (-1), tspec ['C', 'B'] ['C'] 3]) = (0, true, true) := by decide
